@@ -741,6 +741,24 @@ func (w *World) oxmDispatchRule(r *Report, rule string, builtCoverage bool) {
 	seenCase := map[key]bool{}
 	// walk `if class == C { switch field { case F: val = new(K) } }`
 	var walkIf func(is *ast.IfStmt)
+	oneCase := func(class, f int64, kind string, pos token.Pos) {
+		k := w.Kinds[kind]
+		ls := w.LenSummary(k)
+		nCases++
+		seenCase[key{class, f}] = true
+		inst := fmt.Sprintf("%#x/%d", class, f)
+		wd, known := width[key{class, f}]
+		switch {
+		case !known:
+			r.Fail(VUnmapped, rule, fi.Key, inst, w.Pos(pos), fmt.Sprintf("class %#x field %d is decoded as %s but has no row in spec/oxm_registry.json", class, f, kind))
+		case ls == nil || ls.Term == nil || !ls.Term.IsConst():
+			r.OK(rule, fi.Key, inst, w.Pos(pos), fmt.Sprintf("%s → %s (variable-size payload kind)", name[key{class, f}], kind), false)
+		case ls.Term.C != wd:
+			r.Fail(VViolation, rule, fi.Key, inst, w.Pos(pos), fmt.Sprintf("%s (class %#x field %d) is %d bytes wide, but its payload is decoded as %s of %d bytes: value and mask are cut or shifted", name[key{class, f}], class, f, wd, kind, ls.Term.C))
+		default:
+			r.OK(rule, fi.Key, inst, w.Pos(pos), fmt.Sprintf("%s: %d bytes → %s", name[key{class, f}], wd, kind), true)
+		}
+	}
 	handle := func(class int64, sw *ast.SwitchStmt) {
 		for _, cc := range sw.Body.List {
 			c := cc.(*ast.CaseClause)
@@ -760,37 +778,61 @@ func (w *World) oxmDispatchRule(r *Report, rule string, builtCoverage bool) {
 			if kind == "" {
 				continue // unsupported field: rejected (nil payload), C07's business
 			}
-			k := w.Kinds[kind]
-			ls := w.LenSummary(k)
 			for _, e := range c.List {
-				f, ok := constIntOf(info, e)
-				if !ok {
-					continue
-				}
-				nCases++
-				seenCase[key{class, f}] = true
-				inst := fmt.Sprintf("%#x/%d", class, f)
-				wd, known := width[key{class, f}]
-				switch {
-				case !known:
-					r.Fail(VUnmapped, rule, fi.Key, inst, w.Pos(c.Pos()), fmt.Sprintf("class %#x field %d is decoded as %s but has no row in spec/oxm_registry.json", class, f, kind))
-				case ls == nil || ls.Term == nil || !ls.Term.IsConst():
-					r.OK(rule, fi.Key, inst, w.Pos(c.Pos()), fmt.Sprintf("%s → %s (variable-size payload kind)", name[key{class, f}], kind), false)
-				case ls.Term.C != wd:
-					r.Fail(VViolation, rule, fi.Key, inst, w.Pos(c.Pos()), fmt.Sprintf("%s (class %#x field %d) is %d bytes wide, but its payload is decoded as %s of %d bytes: value and mask are cut or shifted", name[key{class, f}], class, f, wd, kind, ls.Term.C))
-				default:
-					r.OK(rule, fi.Key, inst, w.Pos(c.Pos()), fmt.Sprintf("%s: %d bytes → %s", name[key{class, f}], wd, kind), true)
+				if f, ok := constIntOf(info, e); ok {
+					oneCase(class, f, kind, c.Pos())
 				}
 			}
 		}
 	}
+	// the same selection written as data: a package-level table of constructors indexed by the field number
+	handleTable := func(class int64, body ast.Node) {
+		ast.Inspect(body, func(n ast.Node) bool {
+			ix, ok := n.(*ast.IndexExpr)
+			if !ok {
+				return true
+			}
+			id, ok := unparen(ix.X).(*ast.Ident)
+			if !ok {
+				return true
+			}
+			v, ok := info.Uses[id].(*types.Var)
+			if !ok || v.Pkg() == nil || v.Parent() != v.Pkg().Scope() {
+				return true
+			}
+			init, pkg := w.globalInit(v)
+			cl, ok := unparen(init).(*ast.CompositeLit)
+			if !ok || pkg == nil {
+				return true
+			}
+			for _, el := range cl.Elts {
+				kv, ok := el.(*ast.KeyValueExpr)
+				if !ok {
+					continue
+				}
+				f, ok := constIntOf(pkg.TypesInfo, kv.Key)
+				if !ok {
+					continue
+				}
+				if kind := allocatedKind(w, pkg.TypesInfo, kv.Value, 0); kind != "" {
+					oneCase(class, f, kind, kv.Pos())
+				}
+			}
+			return true
+		})
+	}
 	walkIf = func(is *ast.IfStmt) {
 		if be, ok := unparen(is.Cond).(*ast.BinaryExpr); ok {
 			if class, ok := constIntOf(info, be.Y); ok {
+				nsw := 0
 				for _, st := range is.Body.List {
 					if sw, ok := st.(*ast.SwitchStmt); ok {
 						handle(class, sw)
+						nsw++
 					}
+				}
+				if nsw == 0 {
+					handleTable(class, is.Body)
 				}
 			}
 		}
